@@ -1,5 +1,6 @@
 """C03 - the decoder accepts every spec-valid encoding (any block partition, negative counts + byte size),
 both when reading and when skipping; bad union/enum indices and short input raise."""
+import json
 import io, itertools
 from .. import core, gallina as G, codec_common as CC, gen
 
@@ -127,6 +128,29 @@ def impl_read_text(schema, data, reader_schema=None):
     return "E" if r[0] == "raised" else "TIMEOUT"
 
 
+def cosmetic_reader(raw):
+    """a reader schema that differs from the writer only cosmetically (doc attributes; an enum default where there was none):
+    reading goes through schema resolution, the value and every rejection must be the same"""
+    changed = [False]
+
+    def walk(x):
+        if isinstance(x, list):
+            return [walk(b) for b in x]
+        if isinstance(x, dict):
+            y = {k: (walk(v) if k in ("type", "items", "values") and not isinstance(v, str) else v) for k, v in x.items()}
+            if x.get("type") in ("record", "error"):
+                y["fields"] = [dict(f, type=walk(f["type"])) for f in x["fields"]]
+                y["doc"] = "reader side"; changed[0] = True
+            elif x.get("type") == "enum":
+                y.setdefault("default", x["symbols"][0]); y["doc"] = "reader side"; changed[0] = True
+            elif x.get("type") == "fixed":
+                y["doc"] = "reader side"; changed[0] = True
+            return y
+        return x
+    r = walk(json.loads(json.dumps(raw)))
+    return r if changed[0] else None
+
+
 def skip_schemas(raw):
     w = {"type": "record", "name": "SkipW", "fields": [{"name": "a", "type": raw}, {"name": "b", "type": "long"}]}
     r = {"type": "record", "name": "SkipW", "fields": [{"name": "b", "type": "long"}]}
@@ -223,8 +247,27 @@ def run(ctx):
                 ctx.violation("corr:bad-index", case, impl=t[:1500], model="E (index out of range must raise)",
                               signature="C03:bad-index:%s:returns-value" % ("negative" if isinstance(poison[1], int) and poison[1] < 0 else "too-large"),
                               found_input=True)
+            # the same bad index met while RESOLVING against a cosmetically different reader schema (enums get a default there)
+            rr = cosmetic_reader(raw)
+            if rr is not None:
+                try:
+                    res = CC.impl_read(raw, data, rr)
+                except Exception as e:
+                    res = ("raised", type(e).__name__, None)
+                ctx.count("corr:bad-index-resolved", (repr(raw), lt), nontrivial=True)
+                if res[0] != "raised":
+                    ctx.violation("corr:bad-index-resolved", dict(writer_schema=raw, reader_schema=rr, bytes=data.hex(), cut=len(data), poison=poison),
+                                  impl=repr(res[:2])[:300], model="E (index out of range must raise, with or without a reader schema)",
+                                  signature="C03:bad-index:resolved:returns-value", found_input=True)
             if rng.random() < 0.6:
                 skip_jobs.append((raw, parsed, named, data, "bad-index"))
+    # deterministic tails: encodings that end with each kind of leaf (prefix family only; written by the implementation)
+    for raw, datum in CC.tail_cases():
+        named_t = {}
+        parsed_t = fastavro.parse_schema(json.loads(json.dumps(raw)), named_t)
+        w = CC.impl_write(parsed_t, datum)
+        if w[0] == "ok":
+            prefix_jobs.append((raw, parsed_t, named_t, w[1]))
     # ---- corr:skip
     exprs, sj2 = [], []
     for raw, parsed, named, data, kind in skip_jobs:
